@@ -132,6 +132,55 @@ bool compress(int algo, const Bytes &in, Bytes &out)
 	return false;
 }
 
+// Same formats, other legal encoder settings: any reader must accept these as well.
+//   zlib : window 2^9..2^15, level 0..9 (0 = stored blocks), strategies, memLevel
+//   lz4  : fast with any acceleration / HC with any level (both produce plain LZ4 block streams)
+//   zstd : levels -5..19, optional frame checksum (content size always present, single frame)
+bool compress_var(int algo, const Bytes &in, Bytes &out, uint64_t var)
+{
+	if (var == 0) return compress(algo, in, out);
+	switch (algo) {
+	case 2: {
+		z_stream z; memset(&z, 0, sizeof z);
+		int wbits = 9 + (int)(var % 7), level = (int)((var >> 8) % 10), mem = 1 + (int)((var >> 16) % 9);
+		static const int strat[] = { Z_DEFAULT_STRATEGY, Z_FILTERED, Z_HUFFMAN_ONLY, Z_RLE, Z_FIXED };
+		if (deflateInit2(&z, level, Z_DEFLATED, wbits, mem, strat[(var >> 24) % 5]) != Z_OK) return false;
+		out.resize(deflateBound(&z, in.size()) + 64);
+		z.next_in = (Bytef *)in.data(); z.avail_in = (uInt)in.size();
+		z.next_out = (Bytef *)&out[0]; z.avail_out = (uInt)out.size();
+		int r = deflate(&z, Z_FINISH);
+		size_t n = z.total_out;
+		deflateEnd(&z);
+		if (r != Z_STREAM_END) return false;
+		out.resize(n); return true;
+	}
+	case 3: case 4: {
+		int bound = LZ4_compressBound((int)in.size());
+		out.assign(4 + bound, 0);
+		int n = (var & 1) ? LZ4_compress_fast(in.data(), &out[4], (int)in.size(), bound, 1 + (int)((var >> 8) % 64))
+				  : LZ4_compress_HC(in.data(), &out[4], (int)in.size(), bound, 1 + (int)((var >> 8) % 12));
+		if (n <= 0) return false;
+		uint32_t u = (uint32_t)in.size();
+		for (int i = 0; i < 4; i++) out[i] = (char)(u >> (8 * i));
+		out.resize(4 + n); return true;
+	}
+	case 5: {
+		ZSTD_CCtx *c = ZSTD_createCCtx();
+		if (!c) return false;
+		ZSTD_CCtx_setParameter(c, ZSTD_c_compressionLevel, (int)(var % 25) - 5);
+		ZSTD_CCtx_setParameter(c, ZSTD_c_checksumFlag, (int)((var >> 8) & 1));
+		ZSTD_CCtx_setParameter(c, ZSTD_c_contentSizeFlag, 1);
+		size_t bound = ZSTD_compressBound(in.size());
+		out.resize(bound);
+		size_t n = ZSTD_compress2(c, &out[0], bound, in.data(), in.size());
+		ZSTD_freeCCtx(c);
+		if (ZSTD_isError(n)) return false;
+		out.resize(n); return true;
+	}
+	default: return compress(algo, in, out);
+	}
+}
+
 bool decompress(int algo, const uint8_t *in, size_t n, Bytes &out)
 {
 	switch (algo) {
@@ -439,6 +488,7 @@ static Bytes successor_below(const Bytes &lo, const Bytes &hi, Rng &rng, int mod
 Bytes encode(const Entries &e, const EncOpts &o, EncInfo *info)
 {
 	Rng rng(o.seed, 0xE4C, 11);
+	Rng crng(o.seed, 0xC0C0, 3);	// compressor settings: a stream of its own, the structure choices do not depend on it
 	Bytes f = o.foreign_prefix;
 	Entries idx;
 	uint64_t n_blocks = 0, bytes_data = 0, bytes_keys = 0, bytes_vals = 0;
@@ -455,7 +505,8 @@ Bytes encode(const Entries &e, const EncOpts &o, EncInfo *info)
 		size_t cnt = 1 + rng.below(o.max_block_entries > 0 ? o.max_block_entries : 1);
 		size_t to = i + cnt > e.size() ? e.size() : i + cnt;
 		Bytes raw = build_block(e, i, to, o, rng, false), stored;
-		if (!compress(o.algo, raw, stored)) stored = raw;
+		uint64_t var = o.comp_vary && crng.chance(2, 3) ? (crng.next() | 1u << 31) : 0;
+		if (!compress_var(o.algo, raw, stored, var)) { if (!compress(o.algo, raw, stored)) stored = raw; }
 		uint64_t off = f.size();
 		bytes_data += frame(stored);
 		n_blocks++;
